@@ -34,4 +34,12 @@ theorem table_nonvacuous :
     (rows.filter (fun r => r.allocs.contains 4)).length ≥ 2 := by
   decide +kernel
 
+/-- **capsule arguments are finalised on entry**: every Fortran argument of the capsule type in the
+    regenerated statement blocks is `intent(OUT)`.  A capsule has a `final` procedure, so passing a
+    capsule that still owns memory to a second owner(caller) call releases that memory first
+    (model: `Shroud.Capsule.capsule_reuse_releases_previous`); with any other intent the old
+    `{addr, idtor}` would be overwritten and its memory could never be released. -/
+theorem capsule_arguments_intent_out :
+    capsuleArgIntents ≠ [] ∧ ∀ r ∈ capsuleArgIntents, r.2 = 0 := by decide +kernel
+
 end Shroud.Capsule
